@@ -15,9 +15,45 @@ use zarrs::storage::byte_range::ByteRange;
 use zarrs::storage::{ReadableStorageTraits, ReadableWritableListableStorageTraits, StoreKey, WritableStorageTraits};
 use zarrs_filesystem::FilesystemStore;
 
+/// `c18 stress store=mem rounds=<n> readers=<r>`: ONE ranged get with several ranges (as the sharding partial decoder issues)
+/// races with whole-value sets of two uniform values: the ranges of one call must all come from the same value.
+fn exec_c18_mem(rounds: usize, readers: usize) -> String {
+    use zarrs::storage::store::MemoryStore;
+    let store = Arc::new(MemoryStore::new());
+    let key = StoreKey::new("a/k").unwrap();
+    let n = 1usize << 19;
+    store.set(&key, vec![0xAAu8; 2 * n].into()).unwrap();
+    let stop = Arc::new(std::sync::atomic::AtomicBool::new(false));
+    let barrier = Arc::new(Barrier::new(readers + 1));
+    let mut hs = vec![];
+    { let (s, k, b, st) = (store.clone(), key.clone(), barrier.clone(), stop.clone());
+      hs.push(std::thread::spawn(move || { b.wait(); let mut i = 0u8; while !st.load(std::sync::atomic::Ordering::Relaxed) { i ^= 1; let v = vec![if i == 0 { 0xAAu8 } else { 0xBB }; 2 * n]; if s.set(&k, v.into()).is_err() { return "set failed".to_string(); } } String::new() })); }
+    for _ in 0..readers {
+        let (s, k, b) = (store.clone(), key.clone(), barrier.clone());
+        hs.push(std::thread::spawn(move || {
+            b.wait();
+            for round in 0..rounds {
+                match s.get_partial_values_key(&k, &[ByteRange::FromStart(0, Some(64)), ByteRange::FromStart(n as u64, Some(64)), ByteRange::Suffix(64)]) {
+                    Ok(Some(v)) => { let first = v[0][0]; if v.iter().any(|p| p.iter().any(|&x| x != first)) { return format!("round={} one ranged get returned parts of two different values ({:02x} / {:02x} / {:02x})", round, v[0][0], v[1][0], v[2][0]); } }
+                    Ok(None) => return "ranged get returned None".into(),
+                    Err(e) => return format!("ranged get failed: {}", e),
+                }
+            }
+            String::new()
+        }));
+    }
+    let mut out = "ok".to_string();
+    let writer = hs.remove(0);
+    for h in hs { match h.join() { Ok(s) => if !s.is_empty() && out == "ok" { out = format!("bad {}", s.replace(' ', "_")); }, Err(_) => out = "bad panic".into() } }
+    stop.store(true, std::sync::atomic::Ordering::Relaxed);
+    if let Ok(s) = writer.join() { if !s.is_empty() && out == "ok" { out = format!("bad {}", s.replace(' ', "_")); } }
+    out
+}
+
 pub fn exec_c18(m: &BTreeMap<String, String>) -> String {
     let rounds: usize = m["rounds"].parse().unwrap();
     let readers: usize = m["readers"].parse().unwrap();
+    if m.get("store").map(|s| s == "mem").unwrap_or(false) { return exec_c18_mem(rounds, readers); }
     let d = crate::c08::scratch_dir("c18s");
     let key = StoreKey::new("a/k").unwrap();
     let old: Vec<u8> = vec![0x11; 262144];
